@@ -977,6 +977,14 @@ func (e *Env) traceMatch(pats []ast.Expr) (SVal, error) {
 	return mkBool(and(cs...)), nil
 }
 
+// matchEventName: the pattern names the kind of event ev (arguments not considered).
+func (e *Env) matchEventName(p ast.Expr, ev Event) bool {
+	if call, ok := p.(*ast.CallExpr); ok {
+		return eventNameMatch(e.resolveEventName(exprString(call.Fun)), ev.Name)
+	}
+	return eventNameMatch(e.resolveEventName(exprString(p)), ev.Name)
+}
+
 func (e *Env) matchEvent(p ast.Expr, ev Event) (string, error) {
 	call, ok := p.(*ast.CallExpr)
 	if !ok {
